@@ -64,7 +64,7 @@ class Write:
         return 'Write(%s %s %s)' % (self.fn.qn, self.how, self.where)
 
 
-def writers_of_attr(M, attr, getters=(), elements=True):
+def writers_of_attr(M, attr, getters=(), elements=True, owner=None):
     """Every site in the package that may write `<expr>.attr`: rebinding, augmented assignment, element store/delete,
     mutator call on it (directly, through a local alias, or through a getter that hands out the reference).  Name-based,
     package-wide (DESIGN C01-S1)."""
@@ -73,6 +73,7 @@ def writers_of_attr(M, attr, getters=(), elements=True):
         if fn.parent is not None:
             continue
         al = field_aliases(fn, attr, getters)
+        foreign_self = owner is not None and fn.cls is not None and not any(k.name == owner for k in fn.cls.mro())
 
         def is_tgt(e, direct_only=False):
             base = e
@@ -81,6 +82,8 @@ def writers_of_attr(M, attr, getters=(), elements=True):
                 base = base.value
                 sub = True
             if isinstance(base, ast.Attribute) and base.attr == attr:
+                if foreign_self and isinstance(base.value, ast.Name) and base.value.id == 'self':
+                    return None         # another class's own field of the same name
                 return 'elem' if sub else 'field'
             if isinstance(base, ast.Name) and base.id in al and sub:
                 return 'elem-alias'
